@@ -18,10 +18,13 @@ import (
 
 // ---- TS004, independent transcription ------------------------------------
 
-func tsPrbs23(x uint32) uint32 {
+// x <- floor(x/2) + ((bit0 xor bit5) * 2^22): an addition, as in the specification's
+// pseudo-code. The start value 1 + 1001*N is not reduced to 23 bits, so for N >= 8381 bit 22 of
+// floor(x/2) can already be set and the sum carries (an OR would not).
+func tsPrbs23(x uint64) uint64 {
 	b0 := x & 1
-	b1 := (x >> 5) & 1
-	return (x >> 1) | ((b0 ^ b1) << 22)
+	b1 := (x / 32) & 1
+	return x/2 + (b0^b1)*(1<<22)
 }
 
 func tsPow2(m int) bool {
@@ -38,7 +41,7 @@ func tsLine(n, m int) []bool {
 	if tsPow2(m) {
 		mod = m + 1
 	}
-	x := uint32(1 + 1001*n)
+	x := uint64(1 + 1001*n)
 	for c := 0; c < m/2; c++ {
 		r := 1 << 16
 		for guard := 0; r >= m; guard++ {
@@ -46,7 +49,7 @@ func tsLine(n, m int) []bool {
 				panic("tsLine: no column drawn")
 			}
 			x = tsPrbs23(x)
-			r = int(x % uint32(mod))
+			r = int(x % uint64(mod))
 		}
 		line[r] = true
 	}
@@ -519,6 +522,38 @@ func main() {
 		data := r.Bytes(b.m * b.size)
 		encodeCase(s, data, b.size, b.red, "large", hexShort(data))
 	}
+	// ---- redundancy far beyond 100: the PRBS start value 1 + 1001*n exceeds 23 bits from parity
+	// index 8381 on (fragment indices up to 16383 are legal on the wire) ----
+	type tall struct{ m, size, red int }
+	talls := []tall{{10, 3, 8500}, {2, 1, 20000}, {5, 2, 9000}, {8, 1, 8400}}
+	if thorough {
+		talls = append(talls, tall{3, 1, 65535}, tall{16, 2, 16383}, tall{7, 5, 30000}, tall{33, 1, 12000}, tall{4, 3, 40000})
+	}
+	for _, b := range talls {
+		data := r.Bytes(b.m * b.size)
+		encodeCase(s, data, b.size, b.red, "redundancy-beyond-8381", hexShort(data))
+	}
+	// and a block recovered mostly from such late parity fragments
+	recoverCase(s, r, 6, 2, 9000, 9, "erasure-late-parity")
+	if thorough {
+		recoverCase(s, r, 12, 3, 16383, 16, "erasure-late-parity")
+	}
+
+	// ---- fragment sizes beyond 64 (the property says: any positive size) ----
+	for _, size := range []int{255, 256, 257, 300, 512, 1024, 4096} {
+		m := 2 + r.Intn(2)
+		data := r.Bytes(m * size)
+		encodeCase(s, data, size, 1+r.Intn(2), "large-fragment-size", hexShort(data))
+	}
+	if thorough {
+		for i := 0; i < 20; i++ {
+			size := 65 + r.Intn(5000)
+			m := 2 + r.Intn(6)
+			data := r.Bytes(m * size)
+			encodeCase(s, data, size, 1+r.Intn(4), "large-fragment-size", hexShort(data))
+		}
+	}
+
 	s.Extra["gomaxprocs_runs"] = procRuns
 	s.Extra["gomaxprocs_rule"] = "every case with len(data)*redundancy >= 20000 repeated under runtime.GOMAXPROCS(1), (2), (4); result must equal the model-compared one"
 
